@@ -138,7 +138,7 @@ pub fn c02(ctx: &CheckCtx) -> i32 {
          repo's own snapshot queries over NumbersAdapter under generated schedules.",
     );
     report.assume("only order-preserving schedules are generated (the adapter contract)");
-    let cases = ctx.cases(20_000, 1_000_000);
+    let cases = ctx.cases(60_000, 1_000_000);
     let res = search(ctx, "c02", cases, WORLD_MIN_LEN + 100, WORLD_MAX_LEN + 300, |b, s, counting| {
         c02_case(b, s, counting, &cfg, sched_len)
     });
@@ -148,7 +148,7 @@ pub fn c02(ctx: &CheckCtx) -> i32 {
         let rest = &b[c.consumed().min(b.len())..];
         json!({"schedule": format!("{schedule:?}"), "case": render_world_case(rest, &cfg)})
     });
-    let ncases = ctx.cases(4_000, 200_000);
+    let ncases = ctx.cases(12_000, 200_000);
     let res = search(ctx, "c02-numbers", ncases, 16, 400, numbers::c02_numbers_case);
     report.absorb(res, &|b| numbers::render(b));
     report.finish()
